@@ -1,13 +1,14 @@
 import SecsModel.Proofs.SecsIHeader
 import SecsModel.Model.SecsI
 import SecsModel.Proofs.SecsI
+import SecsModel.Proofs.SecsIReasm
 /-!
 # C16 — SECS-I blocks split, checksum and reassemble any message body without loss
 
 Only property theorems, non-vacuity examples and (where they exist) counterexample theorems live here.
 -/
 namespace SecsModel.Props.C16
-open SecsModel SecsModel.Gen SecsModel.Proofs.SecsIHdr SecsModel.Model.SecsI SecsModel.Proofs.SecsI
+open SecsModel SecsModel.Gen SecsModel.Proofs.SecsIHdr SecsModel.Model.SecsI SecsModel.Proofs.SecsI SecsModel.Proofs.SecsIReasm
 
 /-- The generated `SecsIHeader.encode` produces exactly the E4 header bytes, and the generated `decode`
 recovers every field — for **all** in-range field values. -/
@@ -33,14 +34,9 @@ theorem header_roundtrip (h : SecsIHeader) (hr : InRange h) :
 /-- non-vacuity: a concrete in-range header -/
 example : InRange ⟨0xFFFFFFFF, 0x7FFF, 127, 255, 0x7FFF, true, true, true⟩ := by decide
 
-/-- what `_split_blocks` is: the list of data chunks the message is cut into -/
-def dataBlocks (body : Bytes) : List Bytes := if body.length = 0 then [body] else chunks 244 body
-
+/-- what `_split_blocks` is: the numbering of the 244-byte chunks (generated block size) -/
 theorem split_eq (h : Header) (body : Bytes) :
-    split h body = number h true (dataBlocks body).length 0 (dataBlocks body) := by
-  simp only [split, BlockFmt.secsiBlockSize, dataBlocks]
-  have : ¬ ((244 : Int) = -1) := by decide
-  simp [this]
+    split h body = number h true (dataBlocks body).length 0 (dataBlocks body) := Proofs.SecsI.split_eq h body
 
 /-- **Split, all body lengths.**  The blocks' data concatenate to the body; there are `max 1 ⌈len/244⌉` of them; none
 carries more than 244 bytes; block `j` (0-based) is numbered `j+1`, carries the end bit iff it is the last, and has every
@@ -50,37 +46,8 @@ theorem split_correct (h : Header) (body : Bytes) :
     ∧ (split h body).length = max 1 ((body.length + 243) / 244)
     ∧ (∀ b ∈ split h body, b.data.length ≤ 244)
     ∧ (∀ j, j < (split h body).length → ((split h body)[j]?).map (·.header) =
-        some { h with block := ((j + 1 : Nat) : Int), last_block := decide (j + 1 = (split h body).length) }) := by
-  rw [split_eq]
-  have hlen : (number h true (dataBlocks body).length 0 (dataBlocks body)).length = (dataBlocks body).length := number_length ..
-  refine ⟨?_, ?_, ?_, ?_⟩
-  · rw [number_data]
-    unfold dataBlocks
-    split
-    · rename_i h0; have : body = [] := List.length_eq_zero_iff.mp h0; subst this; rfl
-    · exact chunks_flatten 244 (by decide) _ _ (Nat.le_refl _)
-  · rw [hlen]
-    unfold dataBlocks
-    split
-    · rename_i h0; rw [h0]; rfl
-    · rename_i h0
-      rw [chunks_length 244 (by decide) _ _ (Nat.le_refl _)]
-      have : 1 ≤ (body.length + 244 - 1) / 244 := by
-        apply (Nat.le_div_iff_mul_le (by decide)).mpr; omega
-      have e : body.length + 244 - 1 = body.length + 243 := by omega
-      rw [e] at this ⊢
-      omega
-  · intro b hb
-    have hd : b.data ∈ (number h true (dataBlocks body).length 0 (dataBlocks body)).map (·.data) := List.mem_map_of_mem hb
-    rw [number_data] at hd
-    unfold dataBlocks at hd
-    split at hd
-    · rename_i h0; simp at hd; rw [hd]; omega
-    · exact (chunks_bound 244 (by decide) _ _ (Nat.le_refl _) _ hd).2
-  · intro j hj
-    rw [hlen] at hj ⊢
-    rw [number_get h true _ 0 _ j hj]
-    simp
+        some { h with block := ((j + 1 : Nat) : Int), last_block := decide (j + 1 = (split h body).length) }) :=
+  split_facts h body
 
 /-- **Block round-trip.**  Every block whose header fields are in range and whose data fits a block encodes, and decoding
 the encoding gives the block back (header and data identical, checksum accepted). -/
@@ -209,6 +176,55 @@ theorem corruption_rejected (h : Header) (data : Bytes) (hr : InRange h) (adata 
 example : InRange ⟨7, 1, 1, 2, 1, true, true, false⟩ ∧ AllBytes (List.replicate 244 255) ∧ (List.replicate 244 255).length ≤ 244 := by
   refine ⟨by decide, ?_, by rw [List.length_replicate]; exact Nat.le_refl _⟩
   intro x hx; rw [List.mem_replicate] at hx; omega
+
+/-- **Reassembly under interleaving.**  Split any number of messages whose system bytes are pairwise distinct, interleave
+their blocks in ANY way (each message's own blocks in order) and feed them to the reassembly of `_add_message_block`:
+for every message `i`, exactly one message is completed under its system bytes, it consists of exactly the blocks of
+`split hᵢ bodyᵢ` (hence, by `split_correct`, its data is `bodyᵢ` and its header is `hᵢ` with the last block's number and
+the end bit), nothing is left pending for it, and nothing is completed under any other key. -/
+theorem reassembly (ms : List (Header × Bytes)) (hnd : (ms.map (·.1.system)).Nodup) (bs : List Block)
+    (hI : Interleaving (ms.map (fun m => split m.1 m.2)) bs) :
+    (∀ i (hi : i < ms.length),
+        ((reassembleK [] bs).2.filter (·.1 == ms[i].1.system)).map (·.2) = [split ms[i].1 ms[i].2]
+        ∧ (reassemble [] bs).1.lookup ms[i].1.system = none
+        ∧ Message.data (split ms[i].1 ms[i].2) = ms[i].2)
+    ∧ (∀ e ∈ (reassembleK [] bs).2, ∃ i, ∃ (hi : i < ms.length), e.1 = ms[i].1.system)
+    ∧ (reassembleK [] bs).2.map (·.2) = (reassemble [] bs).2 := by
+  have hkeys : ∀ i (hi : i < (ms.map (fun m => split m.1 m.2)).length) (hk : i < (ms.map (·.1.system)).length),
+      ∀ b ∈ (ms.map (fun m => split m.1 m.2))[i], keyOf b = (ms.map (·.1.system))[i] := by
+    intro i hi hk b hb
+    simp only [List.getElem_map] at hb ⊢
+    exact split_system _ _ b hb
+  refine ⟨?_, ?_, reassembleK_snd bs []⟩
+  · intro i hi
+    have hf := filter_interleaving (ms.map (·.1.system)) hnd _ bs hI (by simp) hkeys i (by simpa using hi) (by simpa using hi)
+    simp only [List.getElem_map] at hf
+    have hl := reassemble_local bs [] ms[i].1.system
+    rw [hf, lookup_nil, runK_split] at hl
+    have h1 := congrArg Prod.fst hl
+    have h2 := congrArg Prod.snd hl
+    simp only at h1 h2
+    refine ⟨h2, ?_, ?_⟩
+    · rw [← reassembleK_fst]; exact h1
+    · exact (split_correct ms[i].1 ms[i].2).1
+  · intro e he
+    obtain ⟨b, hb, hk⟩ := reassembleK_keys bs [] e he
+    obtain ⟨l, hl, hbl⟩ := mem_of_interleaving _ bs hI b hb
+    obtain ⟨i, hi, hli⟩ := List.getElem_of_mem hl
+    have hi' : i < ms.length := by simpa using hi
+    refine ⟨i, hi', ?_⟩
+    rw [hk]
+    simp only [List.getElem_map] at hli
+    rw [← hli] at hbl
+    exact split_system _ _ b hbl
+
+/-- non-vacuity: two transactions (3 blocks and 1 block) interleaved `a1 b1 a2 a3` satisfy the hypotheses, and the
+executable model returns both messages with the pending table empty -/
+example :
+    let a := split ⟨1, 5, 1, 3, 0, false, true, true⟩ (List.replicate 500 1)
+    let b := split ⟨2, 5, 6, 11, 0, true, false, true⟩ [9]
+    let r := reassemble [] (a.take 1 ++ b ++ a.drop 1)
+    (r.2.map Message.data = [[9], List.replicate 500 1]) ∧ r.1 = [] := by decide +kernel
 
 /-- non-vacuity / sanity: a 245-byte body gives two blocks of 244 and 1 bytes -/
 example : ((split ⟨1, 2, 3, 4, 0, false, true, true⟩ (List.replicate 245 7)).map (fun b => (b.header.block, b.header.last_block, b.data.length)))
